@@ -3,12 +3,12 @@ package main
 // C12 — Handler / Actor mailboxes: serial, exactly once, per-sender order; spawn trees; after-Close dropping.
 //
 // Case lines (see lean/FpgoVerif/Model/C12.lean for the grammar and the model's semantics):
-//   sched k=H|A ctor=new|ch cap=<k> n=<n> gate=0|1: op@hint ; op@hint ; ...     directed schedule (park points)
+//   sched k=H|A ctor=new|ch cap=<k> n=<n> gate=0|1: op ; op ; ...     directed schedule (park points)
 //   stress k=H|A ctor=.. cap=<k> n=<n> m=<m> jit=0|1 close=0|1 seed=<s>         free running + monitors
 //   tree: new <cap> ; spawn <p> ; close <a> ; send <a> ; parent <c> ; child <p> <c> ; closed <a>
 //
-// The `@hint` after an op is the status the generator's own mini-simulation expects after that op; the
-// harness uses it only to know what to wait for (a positive event: up to 2 s; "still blocked": 100 ms).
+// The harness runs its own mini-simulation of the schedule next to the real code to know what to expect after each op; the
+// expectation is used only to know what to wait for (a positive event: up to 2 s; "still blocked": 100 ms).
 // What is printed is always what was actually observed.
 
 import (
@@ -249,6 +249,8 @@ func (s *c12Sim) status() string {
 // ---------------------------------------------------------------------------------------------
 // directed schedules
 
+var c12Deviations int32 // schedules steps (in this process) whose observed status was not the expected one
+
 func c12RunSched(line string) string {
 	head, body := line, ""
 	if k := strings.Index(line, ": "); k >= 0 {
@@ -348,7 +350,11 @@ func c12RunSched(line string) string {
 			time.Sleep(150 * time.Millisecond)
 			return status()
 		}
-		deadline := time.Now().Add(2 * time.Second)
+		patience := 1500 * time.Millisecond
+		if atomic.LoadInt32(&c12Deviations) >= 3 {
+			patience = 400 * time.Millisecond // the real code has left the expected path repeatedly: stop being patient
+		}
+		deadline := time.Now().Add(patience)
 		for {
 			cur := status()
 			if cur == hint {
@@ -366,17 +372,22 @@ func c12RunSched(line string) string {
 		}
 	}
 	var outs []string
-	lastHint := ""
+	sim := c12NewSim(capacity, n, gate) // the harness's own expectation of what to wait for (never printed)
+	deviated := false
 	for _, raw := range strings.Split(body, ";") {
 		raw = strings.TrimSpace(raw)
 		if raw == "" {
 			continue
 		}
-		tok, hint := raw, ""
+		tok := raw
 		if k := strings.Index(raw, "@"); k >= 0 {
-			tok, hint = raw[:k], raw[k+1:]
+			tok = raw[:k]
 		}
-		lastHint = hint
+		sim.op(tok)
+		hint := sim.status()
+		if deviated {
+			hint = "" // expectations are void once the real code left the expected path: fixed settle time
+		}
 		i := 0
 		if len(tok) > 1 {
 			i, _ = strconv.Atoi(tok[1:])
@@ -416,7 +427,12 @@ func c12RunSched(line string) string {
 		case 'F':
 			openGate()
 		}
-		outs = append(outs, await(hint, own))
+		got := await(hint, own)
+		if hint != "" && got != hint {
+			deviated = true
+			atomic.AddInt32(&c12Deviations, 1)
+		}
+		outs = append(outs, got)
 		// a `k` whose Post returned without reaching the park point leaves its rule behind: drop it
 		if tok[0] == 'k' && i < n {
 			if _, ok := c12ThreadDone(senders[i]); ok {
@@ -425,7 +441,6 @@ func c12RunSched(line string) string {
 		}
 	}
 	// final snapshot: what the last op settled to must be stable
-	_ = lastHint
 	time.Sleep(40 * time.Millisecond)
 	final := status()
 	mu.Lock()
@@ -816,7 +831,7 @@ func c12Hinted(kind, ctor string, capacity, n int, gate bool, ops []string) stri
 	var parts []string
 	apply := func(op string) {
 		sim.op(op)
-		parts = append(parts, op+"@"+sim.status())
+		parts = append(parts, op)
 	}
 	for _, op := range ops {
 		apply(op)
